@@ -344,7 +344,18 @@ func H_ST_lang_conc() {
 	default:
 		sel += "empty"
 	}
-	ev("once %d select %s", k, sel)
+	// a Once that is re-armed by assigning a fresh value (retry-after-failure idiom)
+	var rearm sync.Once
+	runs := 0
+	for i := 0; i < 3; i++ {
+		failed := false
+		rearm.Do(func() { runs++; failed = i < 2 })
+		if failed {
+			rearm = sync.Once{}
+		}
+	}
+	rearm.Do(func() { runs += 100 })
+	ev("once %d select %s rearm %d", k, sel, runs)
 	// rendez-vous on unbuffered channels (the goroutine parks at its send, the receive wakes it)
 	res := make(chan string)
 	go func() { res <- "done" }()
